@@ -108,7 +108,25 @@ class Check:
                           "mode": rng.choice(["bfs", "dfs"])})
         return roots
 
+    def gen_many(self, rng, tier):
+        """Counters have widths: a number of failures around 2^8 / 2^9 in one run."""
+        top = rng.choice(gen.SAFE_ROOTS)
+        n = rng.choice([255, 256, 256, 257, 512])
+        nodes = [{"path": top, "type": "dir"}]
+        faults = []
+        for i in range(n):
+            nodes.append({"path": "%s/u%03d" % (top, i), "type": "dir"})
+            faults.append({"fail": {"call": "opendir", "path": "%s/u%03d" % (top, i), "errno": "EACCES"}})
+        nodes.append({"path": top + "/ok", "type": "dir"})
+        nodes.append({"path": top + "/ok/f.txt", "type": "file", "content": "x"})
+        world = {"nodes": nodes}
+        plan = {"entropy": rng.getrandbits(48), "clock": [1700000000 * 10 ** 9, 0]}
+        return {"sub": "A", "world": world, "roots": [{"top": top, "kind": "rel", "mind": 0, "maxd": 0, "mode": rng.choice(["bfs", "dfs"])}], "plan": plan,
+                "faults": faults, "shape": rng.choice(["streamed", "count"])}
+
     def gen_a(self, rng, tier):
+        if rng.random() < 0.012:
+            return self.gen_many(rng, tier)
         nroots = rng.choice([1, 1, 2])
         tops = rng.sample(gen.SAFE_ROOTS, nroots)
         world = gen.gen_tree(rng, tops, max_entries=rng.choice([6, 12, 25, 40]), max_depth=rng.choice([3, 4, 6]),
